@@ -1167,7 +1167,9 @@ class Interp:
             if isinstance(fn, (SFunc, types.FunctionType)):
                 if fn in self.eng.native_models:
                     r = self.eng.native_models[fn](self, W, args, kwargs)
-                elif self.interpretable_func(fn):
+                elif isinstance(fn, types.FunctionType) and fn in self.models.pyfunc_table:
+                    r = self.models.pyfunc_table[fn](W, args, kwargs)
+                elif self.interpretable_func(fn) or self.eng.interpret_any_python:
                     # generators passed to interpreted code are fine
                     if stack_cut is not None:
                         # bind first (may raise TypeError) then cut
